@@ -1,6 +1,7 @@
 INIT MCInit
 NEXT MCNext
 CONSTANTS
+  CharsetClass <- MCCharsetClass
   DelimWithCRLF = TRUE
   PartPool <- MCPartPool
   EnvPool <- MCEnvPool
